@@ -54,6 +54,29 @@ func smallCase(r *rand.Rand, ci int, salt string) (*gen.DAG, *Case) {
 	}
 }
 
+// settle waits for logical quiescence. When the node's manager goroutine stays unresponsive (the
+// mailbox barrier got no answer during three consecutive 2 s attempts) it reports "blocked" instead of
+// waiting for the full watchdog: a blocked manager never becomes quiescent because deliveries to it hang.
+func settle(w *World, n *GSNode) (state string, why string) {
+	blockedFor := 0
+	for i := 0; i < 30; i++ {
+		ok, y := w.Q.Await(5, 2*time.Second)
+		if ok {
+			return "quiet", ""
+		}
+		why = y
+		if atomic.LoadInt32(&n.LoopBlocked) != 0 {
+			blockedFor++
+			if blockedFor >= 3 {
+				return "blocked", y
+			}
+		} else {
+			blockedFor = 0
+		}
+	}
+	return "", why
+}
+
 // healthyKinds are the request shapes healthy peers use: each drives a different responder-side
 // path (hooks, extensions, updates, pauses).
 var healthyKinds = []string{"plain", "ext", "update", "pause-unpause"}
@@ -155,7 +178,7 @@ func c25Responder(p rt.Params, rep *rt.Reporter, ci int) {
 		newS("")
 	}
 	inc := ""
-	if ok, why := w.Quiesce(); !ok {
+	if st, why := settle(w, R); st == "" {
 		inc = "stall phase: " + why
 	}
 	st := R.GS.Stats()
@@ -210,7 +233,7 @@ func c25Responder(p rt.Params, rep *rt.Reporter, ci int) {
 			sized = true
 		}
 		if r.Intn(2) == 0 {
-			if ok, why := w.Quiesce(); !ok {
+			if st, why := settle(w, R); st == "" {
 				inc = "stalled-peer actions: " + why
 			}
 		}
@@ -268,8 +291,10 @@ func c25Responder(p rt.Params, rep *rt.Reporter, ci int) {
 	// verdict at quiescence: logical time has stopped; whatever is not finished now never will be
 	// while S stays stalled
 	starved := ""
+	phase := ""
 	if inc == "" {
-		if ok, why := w.Quiesce(); !ok {
+		var why string
+		if phase, why = settle(w, R); phase == "" {
 			inc = "healthy phase: " + why
 		}
 	}
@@ -284,8 +309,18 @@ func c25Responder(p rt.Params, rep *rt.Reporter, ci int) {
 			if starved == "" {
 				break
 			}
+			if phase == "blocked" {
+				// no quiescence is possible: confirm that the manager stays blocked
+				var why string
+				if phase, why = settle(w, R); phase == "" {
+					inc = "confirming starvation: " + why
+					break
+				}
+				continue
+			}
 			if ok, _ := w.Q.Sustained(1500 * time.Millisecond); !ok {
-				if ok2, why := w.Quiesce(); !ok2 {
+				var why string
+				if phase, why = settle(w, R); phase == "" {
 					inc = "confirming starvation: " + why
 					break
 				}
@@ -391,7 +426,7 @@ func c25Requestor(p rt.Params, rep *rt.Reporter, ci int) {
 		sreqs = append(sreqs, sreq{w.Request(A, S.ID, d.Root, gen.AllSelector()), d})
 	}
 	inc := ""
-	if ok, why := w.Quiesce(); !ok {
+	if st, why := settle(w, A); st == "" {
 		inc = "request phase: " + why
 	}
 	for _, s := range sreqs {
@@ -411,7 +446,7 @@ func c25Requestor(p rt.Params, rep *rt.Reporter, ci int) {
 		w.Fab.Link(A.ID, S.ID).Stall()
 	}
 	if inc == "" {
-		if ok, why := w.Quiesce(); !ok {
+		if st, why := settle(w, A); st == "" {
 			inc = "stall phase: " + why
 		}
 	}
@@ -500,8 +535,10 @@ func c25Requestor(p rt.Params, rep *rt.Reporter, ci int) {
 		}
 	}
 	starved := ""
+	phase := ""
 	if inc == "" {
-		if ok, why := w.Quiesce(); !ok {
+		var why string
+		if phase, why = settle(w, A); phase == "" {
 			inc = "healthy phase: " + why
 		}
 	}
@@ -516,8 +553,17 @@ func c25Requestor(p rt.Params, rep *rt.Reporter, ci int) {
 			if starved == "" {
 				break
 			}
+			if phase == "blocked" {
+				var why string
+				if phase, why = settle(w, A); phase == "" {
+					inc = "confirming starvation: " + why
+					break
+				}
+				continue
+			}
 			if ok, _ := w.Q.Sustained(1500 * time.Millisecond); !ok {
-				if ok2, why := w.Quiesce(); !ok2 {
+				var why string
+				if phase, why = settle(w, A); phase == "" {
 					inc = "confirming starvation: " + why
 					break
 				}
